@@ -435,7 +435,8 @@ func c28ParseRaw(raw []byte) (c28Raw, error) {
 
 // c28WalkIfaces derives the interfaces a packet with these info/hop fields traverses, following the data-plane rules:
 // each hop is entered through its travel-ingress and left through its travel-egress interface (ConsIngress /
-// ConsEgress swapped when travelling against construction direction); interface 0 means "inside the AS"; at a
+// ConsEgress swapped when travelling against construction direction); interface 0 means "inside the AS"; the first
+// hop of the path is not entered from outside and the last hop is not left (source / destination AS); at a
 // segment change the last hop of the old and the first hop of the new segment belong to the same AS, which is entered
 // through the former's ingress and left through the latter's egress -- unless the segments are peering segments, in
 // which case the two hops belong to the two peering ASes and are both traversed completely.
